@@ -563,3 +563,14 @@ def run(chk):
         mime_table(chk, prog, cfg)
         directory_protocol(chk, prog, cfg)
         request_path_derivation(chk, prog, cfg)
+        if cfg == "A":
+            # "requested by its percent-encoded path": the decoder that turns the request target into the file name accepts every escape,
+            # in either case, and copies everything else (the percent-decoding rules of C18)
+            import json as _json
+            from . import c18
+            with open(os.path.join(ORACLES, "constants.json")) as fh:
+                orc_ = _json.load(fh)
+            dec_ = [p_ for p_ in prog.bodies if p_.endswith("PercentDecode>::percent_decode")]
+            chk.floor("percent_decode fn", len(dec_), 1)
+            if dec_:
+                c18.percent_decode(chk, prog, orc_, dec_[0])
